@@ -28,7 +28,7 @@ META = {
 SRC_FILES = ["src/rime/dict/dictionary.cc", "src/rime/dict/table.cc", "src/rime/gear/script_translator.cc",
              "src/rime/gear/table_translator.cc", "src/rime/gear/translator_commons.cc", "src/rime/translation.cc",
              "src/rime/candidate.cc", "src/rime/algo/syllabifier.cc", "src/rime/dict/prism.cc"]
-GEN_VERSION = 1
+GEN_VERSION = 2
 KS = 18.420680743952367
 
 
@@ -134,6 +134,8 @@ def parse_impl(out):
             inp["seg"] = tuple(p[1:])
         elif op == "c":
             inp["c"].append((p[1], int(p[2]), int(p[3]), p[4], p[5]))
+            if len(p) >= 9:      # dictionary phrase: code, weight, matching_code_size (0 = exact match)
+                inp.setdefault("cw", []).append((p[1], int(p[3]), p[6], dbl(int(p[7], 16)), int(p[8]), p[4]))
         elif op == "endin":
             inp["done"] = True
     return schemas
@@ -274,7 +276,7 @@ def gen_config(rng, name, quick=True):
     algebra = rng.choice(ALGEBRAS)
     lens = rng.choice([[1, 1, 2, 2, 3, 4, 5], [1, 2, 3, 3, 4, 4, 5, 6], [1, 1, 1, 2]])
     if style == "long":           # many codes beyond the index depth: tail pages, match_extra_code
-        syl = set(list(syl)[:3]) | {letters[0]}
+        syl = set(sorted(syl)[:3]) | {letters[0]}
         lens = [3, 4, 4, 5, 5, 6, 7]
     elif style == "words":        # table-style: one-syllable codes that extend each other
         syl = {letters[0] * k for k in (1, 2, 3)} | {"".join(rng.choice(letters) for _ in range(rng.randint(1, 4))) for _ in range(8)}
@@ -406,18 +408,40 @@ def monitor_script(cfg, rows, sid, inp):
         if ty == "phrase" and en in exact_ends.get(t, set()) and en != best:
             bad.append(("order", "text %s first listed at [0,%d) although it is also spelled by [0,%d)" % (t, en, best)))
     # completeness is claimed for fully spelled entries only (word completion is an extra, licensed but not promised)
-    for t in set(exact_ends):
+    for t in sorted(exact_ends):
         if t not in seen and t != sent_text:
             bad.append(("incomplete", "entry %s (spelled up to %s) is missing from the list" %
                         (bytes.fromhex(t).decode("utf-8", "replace"), sorted(exact_ends.get(t, set())))))
-    # same code => non-increasing weight (on the dictionary's own lookup result, which carries the codes)
-    for p, L in (inp["lk"].items() if cfg["case"]["files"][0].get("sort") != "original" else ()):
+    # same code => non-increasing weight.  The clause is about the entries sharing a code (homophones) within one way of matching:
+    # the same entry may be reached twice at one end position, once fully spelled (exact) and once as a word completion
+    # (predictive: fewer syllables matched, hence fewer penalties), and compare_chunk_by_head_element ranks every exact match
+    # before every predictive one whatever the weights; DistinctTranslation then shows the text once.  So the key is
+    # (end, code, exact-or-predictive).  Checked on the dictionary's own lookup result AND on the real candidate list.
+    if cfg["case"]["files"][0].get("sort") != "original":
+        for p, L in inp["lk"].items():
+            last = {}
+            for e, t, c, wb, m, r in L:
+                w = dbl(wb)
+                k = (e, c, m != 0)
+                if k in last and w > last[k] + 1e-12:
+                    bad.append(("weight-order", "Dictionary::Lookup end %d code %s (%s): weight %r after %r" %
+                                (e, c, "predictive" if m else "exact", w, last[k])))
+                last[k] = w
         last = {}
-        for e, t, c, wb, m, r in L:
-            w = dbl(wb)
-            if (e, c) in last and w > last[(e, c)] + 1e-12:
-                bad.append(("weight-order", "end %d code %s: weight %r after %r" % (e, c, w, last[(e, c)])))
-            last[(e, c)] = w
+        for ty, en, code, w, m, t in inp.get("cw", []):
+            if ty == "sentence":
+                continue
+            k = (en, code, m != 0)
+            if k in last and w > last[k] + 1e-12:
+                bad.append(("weight-order", "candidate list: %s [0,%d) code %s weight %r comes after a lighter candidate of the same "
+                            "code (weight %r)" % (bytes.fromhex(t).decode("utf-8", "replace"), en, code, w, last[k])))
+            last[k] = w
+    # a candidate never appears a second time with the same code at the same end (an entry listed twice)
+    seen_ec = set()
+    for ty, en, code, w, m, t in inp.get("cw", []):
+        if (en, code, t) in seen_ec:
+            bad.append(("duplicate", "entry %s code %s listed twice at [0,%d)" % (t, code, en)))
+        seen_ec.add((en, code, t))
     return bad
 
 
